@@ -292,9 +292,32 @@ pub fn gen_and_run_keep<const L: usize, W: Write>(
     writeln!(w, "I {}", live.initial()).unwrap();
     let mut count = 0;
     let mut guard = 0;
+    // Stamp jump (one history in five of the profiles below): at some point the book goes through its snapshot with
+    // 2^32 - r (or 2^33 - r, 2^48 - r, 2^63 - r; r = 0..5) added to every queue stamp, so that the following
+    // insertions straddle a power-of-two boundary of the counter. The decision is derived from the history id, not
+    // from the generator, so the histories themselves are the ones generated without it.
+    let mut jump: Option<(usize, u64)> = None;
+    if matches!(h.profile.as_str(), "disciplined" | "ties" | "modify" | "wide" | "mixed" | "toggle" | "reload" | "redundant") {
+        let mut x: u64 = 0xcbf29ce484222325;
+        for b in h.id.bytes() {
+            x = (x ^ b as u64).wrapping_mul(0x100000001b3);
+        }
+        x ^= x >> 29;
+        if x % 5 == 0 {
+            let base: u64 = [1u64 << 32, 1 << 32, 1 << 32, 1 << 33, 1 << 48, 1 << 63][((x >> 8) % 6) as usize];
+            let at = if (x >> 16) % 2 == 0 { 0 } else { ((x >> 20) as usize) % n_ops.max(1) };
+            jump = Some((at, base - (x >> 40) % 6));
+        }
+    }
     while count < n_ops && guard < n_ops * 8 {
         guard += 1;
-        let ops = g.next_ops(&live);
+        let mut ops = g.next_ops(&live);
+        if let Some((at, k)) = jump {
+            if count >= at {
+                ops.insert(0, Op::Jump(k));
+                jump = None;
+            }
+        }
         for op in ops {
             writeln!(w, "O {}", op.line()).unwrap();
             let i = live.step(&op);
